@@ -18,6 +18,7 @@ import (
 	"go/parser"
 	"go/printer"
 	"go/token"
+	"math/big"
 	"os"
 	"path/filepath"
 	"sort"
@@ -288,6 +289,175 @@ func find(body ast.Node, at string) (ast.Expr, *string) {
 			hit(x)
 			return true
 		})
+	case "shape": // shape — statement skeleton of the body as one number: a hex digit per statement in source order
+		// 1 if  2 for  3 range  4 return  5 assignment  6 expression stmt  7 break/continue/goto/fallthrough  8 ++/--
+		// 9 declaration  a switch/select (b = each case)  c go/defer/send/other  d else  e '{'  f '}'  (labels transparent)
+		var d []byte
+		var walk func(s ast.Stmt)
+		block := func(b *ast.BlockStmt) {
+			d = append(d, 14)
+			if b != nil {
+				for _, s := range b.List {
+					walk(s)
+				}
+			}
+			d = append(d, 15)
+		}
+		walk = func(s ast.Stmt) {
+			switch v := s.(type) {
+			case nil:
+			case *ast.BlockStmt:
+				block(v)
+			case *ast.LabeledStmt:
+				walk(v.Stmt)
+			case *ast.IfStmt:
+				d = append(d, 1)
+				walk(v.Init)
+				block(v.Body)
+				if v.Else != nil {
+					d = append(d, 13)
+					walk(v.Else)
+				}
+			case *ast.ForStmt:
+				d = append(d, 2)
+				walk(v.Init)
+				walk(v.Post)
+				block(v.Body)
+			case *ast.RangeStmt:
+				d = append(d, 3)
+				block(v.Body)
+			case *ast.ReturnStmt:
+				d = append(d, 4)
+			case *ast.AssignStmt:
+				d = append(d, 5)
+			case *ast.ExprStmt:
+				d = append(d, 6)
+			case *ast.BranchStmt:
+				d = append(d, 7)
+			case *ast.IncDecStmt:
+				d = append(d, 8)
+			case *ast.DeclStmt:
+				d = append(d, 9)
+			case *ast.SwitchStmt:
+				d = append(d, 10)
+				walk(v.Init)
+				block(v.Body)
+			case *ast.TypeSwitchStmt:
+				d = append(d, 10)
+				walk(v.Init)
+				block(v.Body)
+			case *ast.SelectStmt:
+				d = append(d, 10)
+				block(v.Body)
+			case *ast.CaseClause:
+				d = append(d, 11, 14)
+				for _, s := range v.Body {
+					walk(s)
+				}
+				d = append(d, 15)
+			case *ast.CommClause:
+				d = append(d, 11, 14)
+				for _, s := range v.Body {
+					walk(s)
+				}
+				d = append(d, 15)
+			default:
+				d = append(d, 12)
+			}
+		}
+		b, ok := body.(*ast.BlockStmt)
+		if !ok {
+			fail("shape needs a function")
+		}
+		block(b)
+		n := new(big.Int)
+		for _, x := range d {
+			n.Lsh(n, 4)
+			n.Or(n, big.NewInt(int64(x)))
+		}
+		s := n.String()
+		return nil, &s
+	case "pos": // pos:NAME#k — ordinal, among all assignment/inc-dec statements of the body (pre-order),
+		// of the statement that assign:NAME#k selects
+		ord, res := 0, -1
+		ast.Inspect(body, func(n ast.Node) bool {
+			switch s := n.(type) {
+			case *ast.AssignStmt:
+				for _, l := range s.Lhs {
+					if src(l) == arg {
+						if count == k && res < 0 {
+							res = ord
+						}
+						count++
+					}
+				}
+				ord++
+			case *ast.IncDecStmt:
+				if src(s.X) == arg {
+					if count == k && res < 0 {
+						res = ord
+					}
+					count++
+				}
+				ord++
+			}
+			return true
+		})
+		if res < 0 {
+			fail("selector %q matched %d places, wanted #%d", at, count, k)
+		}
+		s := fmt.Sprintf("%d", res)
+		return nil, &s
+	case "ord": // ord:assign:NAME#k | ord:call:FN#k — pre-order ordinal (over all statements of the body) of the
+		// innermost statement containing the k-th assignment to NAME / the k-th call of FN
+		what, name, _ := strings.Cut(arg, ":")
+		ordinal, res := -1, -1
+		var stack []ast.Node
+		var stmtOrd []int // ordinal of the innermost enclosing statement, parallel to stack
+		ast.Inspect(body, func(nd ast.Node) bool {
+			if nd == nil {
+				stack = stack[:len(stack)-1]
+				stmtOrd = stmtOrd[:len(stmtOrd)-1]
+				return true
+			}
+			cur := -1
+			if len(stmtOrd) > 0 {
+				cur = stmtOrd[len(stmtOrd)-1]
+			}
+			if _, ok := nd.(ast.Stmt); ok {
+				ordinal++
+				cur = ordinal
+			}
+			stack = append(stack, nd)
+			stmtOrd = append(stmtOrd, cur)
+			match := false
+			switch v := nd.(type) {
+			case *ast.AssignStmt:
+				if what == "assign" {
+					for _, l := range v.Lhs {
+						if src(l) == name {
+							match = true
+						}
+					}
+				}
+			case *ast.IncDecStmt:
+				match = what == "assign" && src(v.X) == name
+			case *ast.CallExpr:
+				match = what == "call" && src(v.Fun) == name
+			}
+			if match {
+				if count == k && res < 0 {
+					res = cur
+				}
+				count++
+			}
+			return true
+		})
+		if res < 0 {
+			fail("selector %q matched %d places, wanted #%d", at, count, k)
+		}
+		s := strconv.Itoa(res)
+		return nil, &s
 	case "ncalls": // ncalls:FN — number of calls whose function prints as FN
 		n := 0
 		ast.Inspect(body, func(nd ast.Node) bool {
@@ -569,9 +739,10 @@ func genItem(f *ast.File, it Item) (def string, err error) {
 	}
 	var b strings.Builder
 	if it.Doc != "" {
-		fmt.Fprintf(&b, "(* %s *)\n", it.Doc)
+		fmt.Fprintf(&b, "(* %s *)\n", strings.ReplaceAll(strings.ReplaceAll(it.Doc, "*)", "* )"), "(*", "( *"))
 	}
-	fmt.Fprintf(&b, "(* %s %s : %s *)\n", it.Func, it.At, strings.ReplaceAll(orig, "*)", "* )"))
+	esc := func(x string) string { return strings.ReplaceAll(strings.ReplaceAll(x, "*)", "* )"), "(*", "( *") }
+	fmt.Fprintf(&b, "(* %s %s : %s *)\n", esc(it.Func), esc(it.At), esc(orig))
 	ps := ""
 	if len(plist) > 0 {
 		ps = " " + strings.Join(plist, " ")
@@ -643,7 +814,7 @@ func main() {
 		for _, l := range lostItems {
 			fmt.Printf("translator: %s: %s\n", fl.Out, l)
 			// A lost anchor leaves the definition out, so that whatever depends on it fails to compile.
-			fmt.Fprintf(&b, "(* LOST: %s *)\n", strings.ReplaceAll(l, "*)", "* )"))
+			fmt.Fprintf(&b, "(* LOST: %s *)\n", strings.ReplaceAll(strings.ReplaceAll(l, "*)", "* )"), "(*", "( *"))
 			status = 3
 		}
 		dst := filepath.Join(*out, fl.Out)
